@@ -32,7 +32,9 @@ func cidr(s string) *net.IPNet {
 	return n
 }
 
+// sharedIP is a caller-owned buffer reused for consecutive calls (the filter must not retain it)
 type opT struct {
+	shared  bool // pass the address through sharedIP
 	name    string
 	arg     *net.IPNet
 	add     bool
@@ -65,6 +67,10 @@ func alphabet() []opT {
 			n := cidr(r)
 			ops = append(ops, opT{name: verb + "(" + r + ")", arg: n, add: add, key: key(n)})
 		}
+		for _, r := range []string{"10.0.0.1/32", "255.255.255.255/32"} { // same prefix length, consecutive calls through one buffer
+			n := cidr(r)
+			ops = append(ops, opT{name: verb + "(" + r + " via a reused buffer)", arg: n, add: add, key: key(n), shared: true})
+		}
 		_, v6, _ := net.ParseCIDR("2001:db8::/32")
 		ops = append(ops, opT{name: verb + "(2001:db8::/32)", arg: v6, add: add, invalid: true})
 		ops = append(ops, opT{name: verb + "(10.0.0.0 mask 255.0.255.0)", arg: &net.IPNet{IP: net.IP{10, 0, 0, 0}, Mask: net.IPMask{255, 0, 255, 0}}, add: add, invalid: true})
@@ -79,12 +85,28 @@ func alphabet() []opT {
 type sys struct {
 	f   *netutil.IPv4Filter
 	ref map[string]bool
+	buf net.IP // the caller's reused buffer (per system, so that parallel searches do not share it)
+}
+
+var parsedMu sync.RWMutex
+var parsed = map[string]*net.IPNet{}
+
+func parsedCIDR(k string) *net.IPNet {
+	parsedMu.RLock()
+	n := parsed[k]
+	parsedMu.RUnlock()
+	if n == nil {
+		_, n, _ = net.ParseCIDR(k)
+		parsedMu.Lock()
+		parsed[k] = n
+		parsedMu.Unlock()
+	}
+	return n
 }
 
 func (s *sys) refContains(ip net.IP) bool {
 	for k := range s.ref {
-		_, n, _ := net.ParseCIDR(k)
-		if n.Contains(ip) {
+		if parsedCIDR(k).Contains(ip) {
 			return true
 		}
 	}
@@ -143,10 +165,20 @@ func apply(ops []opT) func(s *sys, op int) string {
 			before = vstate.Dump(s.f)
 		}
 		var err error
+		arg := o.arg
+		if o.shared {
+			copy(s.buf, o.arg.IP.To4())
+			arg = &net.IPNet{IP: s.buf, Mask: o.arg.Mask}
+		}
 		if o.add {
-			err = s.f.Add(o.arg)
+			err = s.f.Add(arg)
 		} else {
-			err = s.f.Remove(o.arg)
+			err = s.f.Remove(arg)
+		}
+		if o.shared {
+			// the caller goes on using its buffer: a filter that retained it now sees other bytes
+			// (and its canonical dump differs from the one after the same call with a private slice)
+			copy(s.buf, []byte{0xee, 0xee, 0xee, 0xee})
 		}
 		switch {
 		case o.invalid || (o.maybe && err != nil):
@@ -170,7 +202,27 @@ func apply(ops []opT) func(s *sys, op int) string {
 	}
 }
 
+var invalidOps []opT
+
 func check(s *sys) string {
+	// arguments that are not IPv4 CIDRs must be rejected in every state and change nothing
+	if len(invalidOps) > 0 {
+		before := vstate.Dump(s.f)
+		for _, o := range invalidOps {
+			var err error
+			if o.add {
+				err = s.f.Add(o.arg)
+			} else {
+				err = s.f.Remove(o.arg)
+			}
+			if err != netutil.ErrInvalidIPv4CIDR {
+				return fmt.Sprintf("C11: %s returned %v, want ErrInvalidIPv4CIDR", o.name, err)
+			}
+		}
+		if vstate.Dump(s.f) != before {
+			return "C11: a rejected argument changed the filter"
+		}
+	}
 	for _, p := range probes {
 		want := s.refContains(p)
 		if got := s.f.Contains(p); got != want {
@@ -196,7 +248,19 @@ func filler(i int) *net.IPNet {
 func main() {
 	flag.Parse()
 	ops := alphabet()
-	opName := func(i int) string { return ops[i].name }
+	{
+		var keep []opT
+		for _, o := range ops {
+			if o.invalid {
+				invalidOps = append(invalidOps, o)
+			} else {
+				keep = append(keep, o)
+			}
+		}
+		ops = keep
+	}
+	var opName func(i int) string
+	opName = func(i int) string { return ops[i].name }
 	var p part
 	var run func(name string, newf func() *sys, depth int)
 	run = func(name string, newf func() *sys, depth int) {
@@ -211,8 +275,16 @@ func main() {
 	}
 	switch *vcommon.Variant {
 	case "small":
-		run("listSize3-fixpoint", func() *sys { return &sys{f: netutil.NewIPv4Filter(), ref: map[string]bool{}} }, 0)
+		run("listSize3-fixpoint", func() *sys { return &sys{f: netutil.NewIPv4Filter(), ref: map[string]bool{}, buf: make(net.IP, 4)} }, 0)
 	case "real":
+		var plain []opT
+		for _, o := range ops {
+			if !o.invalid && !o.maybe && !o.shared {
+				plain = append(plain, o)
+			}
+		}
+		ops = plain
+		opName = func(i int) string { return ops[i].name }
 		depth := 3
 		if vcommon.Thorough() {
 			depth = 4
@@ -241,7 +313,7 @@ func main() {
 			for _, hole := range []string{"none", "first", "middle", "last"} {
 				idx, hole := idx, hole
 				run(fmt.Sprintf("listSize256-prefill%d-hole-%s", idx, hole), func() *sys {
-					s := &sys{f: netutil.NewIPv4Filter(), ref: map[string]bool{}}
+					s := &sys{f: netutil.NewIPv4Filter(), ref: map[string]bool{}, buf: make(net.IP, 4)}
 					for i := 0; i < idx; i++ {
 						s.f.Add(filler(i))
 						s.ref[key(filler(i))] = true
